@@ -289,12 +289,16 @@ check(
           "EncodeBlock for catalog columns with other content queued before and after; both builds. Distinct = hash of the "
           "sequence / of the block. Non-trivial = a ChainWrite between buffer appends with >= 2 flushes, or a failing flush; "
           "for (c): at least one row in a zero-copy column."),
-    quick=[unit("codec", "^TestC14", checks=4000, timeout=900),
-           unit("codec", "^TestC14", variant="purego", checks=2000, timeout=900),
+    quick=[unit("codec", "^TestC14(ExhaustiveShort|RandomLong|ColumnPaths|LargeDictionaryPaths)", checks=4000, timeout=900),
+           unit("codec", "^TestC14(ExhaustiveShort|RandomLong|ColumnPaths|LargeDictionaryPaths)", variant="purego", checks=2000, timeout=900),
+           unit("codec", "^TestC14HugeValuePaths", checks=150, timeout=900),
+           unit("codec", "^TestC14HugeValuePaths", variant="purego", checks=60, timeout=900),
            unit("codec", "^TestEveryKindC14", checks=10, timeout=900),
            unit("codec", "^TestEveryKindC14", variant="purego", checks=10, timeout=900)],
     thorough=[unit("codec", "^TestC14(ExhaustiveShort|RandomLong|ColumnPaths)", checks=50000, timeout=6000, shards=10),
               unit("codec", "^TestC14(ExhaustiveShort|RandomLong|ColumnPaths)", variant="purego", checks=50000, timeout=6000, shards=3),
+              unit("codec", "^TestC14HugeValuePaths", checks=1500, timeout=6000, shards=4),
+              unit("codec", "^TestC14HugeValuePaths", variant="purego", checks=600, timeout=6000, shards=1),
               unit("codec", "^TestC14LargeDictionaryPaths", checks=4000, timeout=6000, shards=2),
               unit("codec", "^TestC14LargeDictionaryPaths", variant="purego", checks=4000, timeout=6000, shards=1),
               unit("codec", "^TestEveryKindC14", checks=600, timeout=6000, shards=2),
